@@ -378,14 +378,14 @@ def judge_history(ctx, h, res, pm):
                 out["xcheck"] += xc[0]
                 for p in xc[1]:
                     out["problems"].append(("crosscheck", "simulation %d: %s" % (s, p), s))
-                xs = sys_check(h, sel["heads"], new_rows, before, plan, inv_before, added_k, phases, extra)
+                xs = sys_check(h, sel["heads"], new_rows, before, plan, inv_before, added_k, phases, extra, xc[2])
                 out["xcheck"] += xs[0]
                 for p in xs[1]:
                     out["problems"].append(("sys-conservation", "simulation %d: %s" % (s, p), s))
     return out
 
 
-def sys_check(h, heads, rws, before, plan, inv_before, added_k, phases, extra):
+def sys_check(h, heads, rws, before, plan, inv_before, added_k, phases, extra, gfw_water):
     """per step k: SYS(e) (everything but kinetic reactants, as the engine sums it) + kinetic reactants (KIN * formula)
     = inventory(before) + what the reaction added up to step k"""
     col = {hd: i for i, hd in enumerate(heads)}
@@ -410,11 +410,18 @@ def sys_check(h, heads, rws, before, plan, inv_before, added_k, phases, extra):
                     kin_inv[el] = kin_inv.get(el, 0.0) + float(q * coef) * row[c]
         if not ok:
             continue
+        sname = (h.get("punch", {}).get("surfaces") or [None])[0]
+        cw = col.get("EDLW_%s" % sname)
+        dlw = row[cw] if cw is not None and row[cw] else 0.0        # SYS("H"/"O") leave out the diffuse-layer water
+        if dlw and not gfw_water:
+            continue
         for el in h["elements"]:
             c = col.get("SYS_" + el)
             if c is None or row[c] is None:
                 continue
             got = row[c] + kin_inv.get(el, 0.0)
+            if dlw and el in ("H", "O"):
+                got += (2 if el == "H" else 1) * dlw / gfw_water
             want = float(inv_before.get(el, 0) + add.get(el, 0))
             scale = max(abs(got), abs(want))
             n += 1
@@ -451,6 +458,7 @@ def cross_check(h, heads, rws, after, plan, inv_after, phases, extra):
     last = rws[-1]
     col = {hd: i for i, hd in enumerate(heads)}
     n, probs = 0, []
+    gfw = [None]
 
     def close(a, b, what, rel=1e-6, floor=1e-15):
         nonlocal n
@@ -499,16 +507,26 @@ def cross_check(h, heads, rws, after, plan, inv_after, phases, extra):
             elif o["key"] == "charge_component":
                 for r in rows(o["opts"], "diffuse_layer_totals"):
                     dtot[r[0]] = dtot.get(r[0], 0.0) + float(r[1])
+        sname = (h.get("punch", {}).get("surfaces") or ["Hfo"])[0]
+        has_dl = val(e["opts"], "dl_type") != "0"
         for el in h["elements"]:
-            if "SURF_%s_Hfo" % el in col:
-                close(last[col["SURF_%s_Hfo" % el]], stot.get(el, 0.0), "SURF(%s,Hfo)" % el)
-            if "EDL_%s_Hfo" % el in col and val(e["opts"], "dl_type") != "0":
-                close(last[col["EDL_%s_Hfo" % el]], dtot.get(el, 0.0), "EDL(%s,Hfo)" % el)
-    # SYS(element) = everything but kinetic reactants
-    kin = {}
-    if "kinetics" in sv and ("KINETICS_RAW", sv["kinetics"]) in after:
-        pass
-    return n, probs
+            if "SURF_%s_%s" % (el, sname) in col:
+                close(last[col["SURF_%s_%s" % (el, sname)]], stot.get(el, 0.0), "SURF(%s,%s)" % (el, sname))
+            if "EDL_%s_%s" % (el, sname) in col and has_dl and el not in ("H", "O"):
+                close(last[col["EDL_%s_%s" % (el, sname)]], dtot.get(el, 0.0), "EDL(%s,%s)" % (el, sname))
+        # EDL("H"/"O") leave out the water of the diffuse layer, EDL("water") gives its mass: the dump's H and O must be
+        # the punched ions + that water
+        cw, cH, cO = col.get("EDLW_" + sname), col.get("EDL_H_" + sname), col.get("EDL_O_" + sname)
+        if has_dl and None not in (cw, cH, cO) and None not in (last[cw], last[cH], last[cO]):
+            dH, dO = dtot.get("H", 0.0) - last[cH], dtot.get("O", 0.0) - last[cO]
+            n += 1
+            if abs(dH - 2 * dO) > 1e-8 * max(abs(dH), 1e-12):
+                probs.append("diffuse-layer water: H %.15g vs 2*O %.15g" % (dH, 2 * dO))
+            elif dO > 0 and last[cw] > 0:
+                gfw[0] = last[cw] / dO
+                if not (0.01795 < gfw[0] < 0.01805):
+                    probs.append("diffuse-layer water: EDL(water)=%.15g kg but H2O in the dump's diffuse layer %.15g mol" % (last[cw], dO))
+    return n, probs, gfw[0]
 
 
 # ----------------------------------------------------------------------------------------------- tie (a): formulas
